@@ -1,7 +1,10 @@
 (* C03: every reported counterexample is a real execution that hits a bad state.
    Case format: see harness/src/c02.rs.  Oracle: the extracted Model.check_witness on every Fail
    witness (against the ORIGINAL system, also for runs on the simplified copy), plus the verdict of
-   the replay through patronus::sim::Interpreter done by the harness. *)
+   the replay through patronus::sim::Interpreter done by the harness.
+   Tie of the witness extraction (Model.get_witness, Props/C03.v C03_bmc_witness_accepted): the harness records
+   every get-value call of the run (queried symbol, value read back); C00mc.witness_tie checks that the model
+   queries the same symbols in the same order and assembles the same witness from the recorded values. *)
 open Model
 open Conv
 open C00mc
@@ -16,7 +19,9 @@ let handle (x : Sexp.t) : string =
   else begin
     let fail = ref None in
     let set_fail key d = if !fail = None then fail := Some (key, d) in
-    let n_wit = ref 0 and distinct = ref [] and n_sim_ok = ref 0 and n_sim_skip = ref 0 in
+    let n_wit = ref 0 and distinct = ref [] and n_sim_ok = ref 0 and n_sim_skip = ref 0 and n_tie = ref 0 in
+    let nm = names_with_fallback fs in
+    let diff = ref None in
     List.iter (fun r ->
         match r.r_result with
         | Sexp.List (Sexp.Atom "fail" :: wx :: rest) ->
@@ -32,7 +37,17 @@ let handle (x : Sexp.t) : string =
               set_fail (if only_simp then "witness:valid-for-the-simplified-system-only" else "witness:" ^ part)
                 (Printf.sprintf "%s: check_witness rejects %s" (run_tag r) (Sexp.to_string wx))
             end;
-            (match rest with
+            (* the model of get_witness on the recorded get-value answers *)
+            (match queries_of_fail rest with
+             | Some qs ->
+                 incr n_tie;
+                 let simp = r.r_simp = "simplified" in
+                 let the_sys = if simp then (match simp_sy with Some s -> s | None -> sy) else sy in
+                 (match witness_tie ~exact_bad_names:(not simp) the_sys nm wx qs with
+                  | Some d -> if !diff = None then diff := Some (Printf.sprintf "%s: %s" (run_tag r) d)
+                  | None -> ())
+             | None -> ());
+            (match List.filter (function Sexp.List (Sexp.Atom "sim" :: _) -> true | _ -> false) rest with
              | [Sexp.List [Sexp.Atom "sim"; m]] ->
                  let m = Sexp.atom m in
                  if m = "ok" then incr n_sim_ok
@@ -43,9 +58,12 @@ let handle (x : Sexp.t) : string =
     match !fail with
     | Some (key, d) -> Registry.result ~id ~status:"fail" ~key ~detail:d ()
     | None ->
+        match !diff with
+        | Some d -> Registry.result ~id ~status:"diff" ~key:"witness-differs-from-model" ~detail:d ()
+        | None ->
         if !n_wit = 0 then Registry.result ~id ~status:"skip" ~key:"no-witness" ()
         else Registry.result ~id ~status:"ok" ~key:"witnesses-valid"
-            ~detail:(Printf.sprintf "%d witnesses (%d distinct) accepted by check_witness; simulator: %d ok, %d skipped" !n_wit (List.length !distinct) !n_sim_ok !n_sim_skip) ()
+            ~detail:(Printf.sprintf "%d witnesses (%d distinct) accepted by check_witness; %d equal to the model's get_witness on the recorded values; simulator: %d ok, %d skipped" !n_wit (List.length !distinct) !n_tie !n_sim_ok !n_sim_skip) ()
   end
 
 let () = Registry.register "C03" handle
